@@ -25,6 +25,7 @@ import (
 	"fmt"
 	"io"
 	"log"
+	"math"
 	"math/rand"
 	"net/http"
 	"net/url"
@@ -323,6 +324,10 @@ func (c *JSONClient) PostAndParseWithRetry(ctx context.Context, path string, req
 				if retryAfter := httpRsp.Header.Get("Retry-After"); retryAfter != "" {
 					if seconds, err := strconv.Atoi(retryAfter); err == nil {
 						b := time.Duration(seconds) * time.Second
+						if int64(seconds) > math.MaxInt64/int64(time.Second) {
+							// Too long for a Duration: wait as long as possible rather than wrapping to a negative wait.
+							b = math.MaxInt64
+						}
 						backoff = &b
 					} else if date, err := time.Parse(time.RFC1123, retryAfter); err == nil {
 						b := time.Until(date)
